@@ -249,6 +249,10 @@ func runC08(s c08Script) c08Outcome {
 		}
 		time.Sleep(20 * time.Millisecond)
 	}
+	if src.RelistenFailed() {
+		// harness: the paused port was taken by another process; no verdict from this history
+		return c08Outcome{}
+	}
 	dmu.Lock()
 	wf, dt := wfAt, dropTime
 	dmu.Unlock()
